@@ -40,6 +40,7 @@ type EQuant struct {
 	Forall bool
 	Vars   []Binder
 	Body   Expr
+	In     Expr // `forall x in S :: body`: x ranges over the elements of the slice S
 }
 type EOld struct{ X Expr }
 
@@ -179,6 +180,14 @@ func (p *eparser) expr() Expr {
 				p.fail("expected binder name")
 			}
 			name := p.next().s
+			if len(vars) == 0 && p.isID("in") {
+				// forall x in S :: body
+				p.p++
+				in := p.iff()
+				p.expectOp("::")
+				body := p.expr()
+				return &EQuant{Forall: fa, Vars: []Binder{{name, ""}}, Body: body, In: in}
+			}
 			typ := p.typeName()
 			vars = append(vars, Binder{name, typ})
 			if p.isOp(",") {
